@@ -6,6 +6,7 @@
 package crdtlab
 
 import (
+	"github.com/kelindar/binary/nocopy"
 	"fmt"
 	"os"
 	"sort"
@@ -51,6 +52,16 @@ func universe() []evSpec {
 		c := &event.Connection{Peer: uint64(1 + i), Conn: security.ID(200 + i), ClientID: []byte("cid")}
 		u = append(u, evSpec{event.VerifConns, c, c.Key(), fmt.Sprintf("conn%d", i)})
 	}
+	// entries whose key + value is far above one kilobyte (a long channel or user name, a long last-will message, a long ban
+	// key): size classes of caches and codecs differ from the small entries above
+	big := &event.Subscription{Peer: 2, Conn: security.ID(150), Ssid: message.Ssid{7, 20, 21, 22}, User: nocopy.String(strings.Repeat("u", 300)), Channel: []byte(strings.Repeat("long/", 260))}
+	u = append(u, evSpec{event.VerifSubs, big, big.Key(), "subBig"})
+	huge := &event.Subscription{Peer: 1, Conn: security.ID(151), Ssid: message.Ssid{7, 30}, Channel: []byte(strings.Repeat("x", 4000) + "/")}
+	u = append(u, evSpec{event.VerifSubs, huge, huge.Key(), "subHuge"})
+	cw := &event.Connection{Peer: 2, Conn: security.ID(250), WillFlag: true, WillTopic: []byte("w/"), WillMessage: []byte(strings.Repeat("W", 3000)), ClientID: []byte("cid-big")}
+	u = append(u, evSpec{event.VerifConns, cw, cw.Key(), "connBigWill"})
+	lb := event.Ban(strings.Repeat("K", 1500))
+	u = append(u, evSpec{event.VerifBans, &lb, lb.Key(), "banLong"})
 	return u
 }
 
